@@ -4,6 +4,7 @@ C07 (generic-grid half) — Cartesian ring/position numbering, step / bounds coo
 Property theorems only; helper lemmas are `private`.
 -/
 import ArmiVerif.Model.Grid
+import ArmiVerif.Props.C07
 import Mathlib.Tactic.Ring
 import Mathlib.Tactic.Linarith
 import Mathlib.Tactic.FieldSimp
@@ -977,6 +978,79 @@ theorem nested_centre_is_midpoint (chain : List Loc) (c b t : List Rat)
             simp only [List.dropLast_cons_cons, List.mem_cons]; right; exact hm)) hc' hb' ht'
           rw [h1, h2, vadd_avg]
 
+
+/-- **the global cell base is the sum of the local cell bases along the whole parent chain, at any depth**, for a chain
+of index locators ending optionally in a free-coordinate locator (which contributes its coordinates) -/
+theorem nested_base_add (chain : List Loc) (hne : chain ≠ [])
+    (hidx : ∀ l ∈ chain.dropLast, l.isIndex = true)
+    (hall : ∀ l ∈ chain, ∃ x y z, l.localBase = some [x, y, z]) :
+    ∃ x y z, globalBase chain = some [x, y, z] ∧
+      x = (chain.map (fun l => ((l.localBase.getD [])[0]?).getD 0)).sum ∧
+      y = (chain.map (fun l => ((l.localBase.getD [])[1]?).getD 0)).sum ∧
+      z = (chain.map (fun l => ((l.localBase.getD [])[2]?).getD 0)).sum := by
+  induction chain with
+  | nil => exact absurd rfl hne
+  | cons l rest ih =>
+    obtain ⟨x, y, z, hl⟩ := hall l (List.mem_cons_self)
+    cases rest with
+    | nil =>
+      cases l with
+      | coord g a b c =>
+        simp only [Loc.localBase, Option.some.injEq, List.cons.injEq, and_true] at hl
+        obtain ⟨rfl, rfl, rfl⟩ := hl
+        exact ⟨a, b, c, rfl, by simp [Loc.localBase], by simp [Loc.localBase], by simp [Loc.localBase]⟩
+      | index g i j k =>
+        refine ⟨x, y, z, ?_, ?_, ?_, ?_⟩ <;> simp [globalBase, hl]
+    | cons l2 rest2 =>
+      have hli : l.isIndex = true := hidx l (by simp [List.dropLast])
+      cases l with
+      | coord g a b c => simp [Loc.isIndex] at hli
+      | index g i j k =>
+        obtain ⟨x', y', z', hg, hx, hy, hz⟩ := ih (by simp)
+          (fun m hm => hidx m (by simp only [List.dropLast_cons_cons, List.mem_cons]; right; exact hm))
+          (fun m hm => hall m (List.mem_cons_of_mem _ hm))
+        refine ⟨x' + x, y' + y, z' + z, ?_, ?_, ?_, ?_⟩
+        · simp [globalBase, hl, hg, vadd]
+        · rw [hx]; simp [hl]; ring
+        · rw [hy]; simp [hl]; ring
+        · rw [hz]; simp [hl]; ring
+
+/-- **the global cell top is the sum of the local cell tops along the whole parent chain, at any depth**, for a chain
+of index locators ending optionally in a free-coordinate locator (which contributes its coordinates) -/
+theorem nested_top_add (chain : List Loc) (hne : chain ≠ [])
+    (hidx : ∀ l ∈ chain.dropLast, l.isIndex = true)
+    (hall : ∀ l ∈ chain, ∃ x y z, l.localTop = some [x, y, z]) :
+    ∃ x y z, globalTop chain = some [x, y, z] ∧
+      x = (chain.map (fun l => ((l.localTop.getD [])[0]?).getD 0)).sum ∧
+      y = (chain.map (fun l => ((l.localTop.getD [])[1]?).getD 0)).sum ∧
+      z = (chain.map (fun l => ((l.localTop.getD [])[2]?).getD 0)).sum := by
+  induction chain with
+  | nil => exact absurd rfl hne
+  | cons l rest ih =>
+    obtain ⟨x, y, z, hl⟩ := hall l (List.mem_cons_self)
+    cases rest with
+    | nil =>
+      cases l with
+      | coord g a b c =>
+        simp only [Loc.localTop, Option.some.injEq, List.cons.injEq, and_true] at hl
+        obtain ⟨rfl, rfl, rfl⟩ := hl
+        exact ⟨a, b, c, rfl, by simp [Loc.localTop], by simp [Loc.localTop], by simp [Loc.localTop]⟩
+      | index g i j k =>
+        refine ⟨x, y, z, ?_, ?_, ?_, ?_⟩ <;> simp [globalTop, hl]
+    | cons l2 rest2 =>
+      have hli : l.isIndex = true := hidx l (by simp [List.dropLast])
+      cases l with
+      | coord g a b c => simp [Loc.isIndex] at hli
+      | index g i j k =>
+        obtain ⟨x', y', z', hg, hx, hy, hz⟩ := ih (by simp)
+          (fun m hm => hidx m (by simp only [List.dropLast_cons_cons, List.mem_cons]; right; exact hm))
+          (fun m hm => hall m (List.mem_cons_of_mem _ hm))
+        refine ⟨x' + x, y' + y, z' + z, ?_, ?_, ?_, ?_⟩
+        · simp [globalTop, hl, hg, vadd]
+        · rw [hx]; simp [hl]; ring
+        · rw [hy]; simp [hl]; ring
+        · rw [hz]; simp [hl]; ring
+
 /-! ### reduce after in-place mutation -/
 
 /-- a mutation is admissible on a grid with bounds `bd`: a new offset has three entries; the pitch of a
@@ -1121,6 +1195,389 @@ example : isAxialOnly (axialGrid [0, 1] [0, 0, 0] [(0, 1), (0, 1), (0, 1)]) = tr
 example : isAxialOnly (axialGrid [0, 1, 2] [0, 0, 0] [(0, 1), (0, 1), (0, 1)]) = true := axial_isAxialOnly _ _ (by decide)
 example : isAxialOnly (axialGrid [0, 1, 2, 3] [0, 0, 0] [(0, 1), (0, 1), (0, 1)]) = true := axial_isAxialOnly _ _ (by decide)
 example : isAxialOnly (axialGrid [0] [0, 0, 0] [(0, 1), (0, 1), (0, 1)]) = false := by decide  -- no cell at all
+
+/-! ### nestings of every kind and depth: which (child grid, parent grid) pairs add indices -/
+
+/-- the step-defined axial grid (k by unit steps, a single (i, j) column) -/
+def stepAxialGrid (steps : Steps) (off : List Rat) (geom sym : String) (n : Int) : G :=
+  { steps := steps, bounds := [none, none, none], limits := [(0, 1), (0, 1), (0, n)],
+    offset := off, geom := geom, sym := sym }
+
+/-- a step-defined 1 × 1 × n column is axial-only exactly when it has more than one cell -/
+theorem stepAxial_isAxialOnly (steps off geom sym) (n : Int) :
+    isAxialOnly (stepAxialGrid steps off geom sym n) = decide (1 < n) := by
+  simp only [isAxialOnly, indexBounds, stepAxialGrid, List.zipWith_cons_cons, List.zipWith_nil_right]
+  by_cases h : 1 < n <;> simp [h]
+
+/-- a grid with bounds in the first two directions (θ-R-Z) is never axial-only: its index bounds in i are
+(0, len(bounds)), and an `IndexError`-free cell needs len(bounds) ≥ 2 -/
+theorem boundsGrid_not_axialOnly (b0 b1 b2 : List Rat) (off limits geom sym) (h : 2 ≤ b0.length) :
+    isAxialOnly (boundsGrid b0 b1 b2 off limits geom sym) = false := by
+  unfold isAxialOnly indexBounds boundsGrid
+  match limits with
+  | [] => rfl
+  | [_] => rfl
+  | [_, _] => rfl
+  | _ :: _ :: _ :: _ => simp; omega
+
+/-- the (exclusive) upper index bound of dimension `d`, read off the public constructor arguments: the number of
+mesh edges where the dimension has bounds, the second entry of `unitStepLimits` otherwise -/
+def upperBound (g : G) (d : Nat) : Option Int :=
+  match g.bounds[d]?, g.limits[d]? with
+  | some (some b), some _ => some (b.length : Int)
+  | some none, some mm => some mm.2
+  | _, _ => none
+
+/-- **what `isAxialOnly` means for EVERY grid** (three dimensions): exactly one (i, j) column and more than one
+index in k — in terms of the constructor arguments (this is the `expected_axial_only` of the harness oracle) -/
+theorem isAxialOnly_iff (g : G) (hl : g.limits.length = 3) (hb : g.bounds.length = 3) :
+    isAxialOnly g = true ↔
+      (upperBound g 0 = some 1 ∧ upperBound g 1 = some 1 ∧ ∃ n, upperBound g 2 = some n ∧ 1 < n) := by
+  obtain ⟨steps, bounds, limits, off, geom, sym⟩ := g
+  simp only at hl hb
+  match limits, hl with
+  | [l0, l1, l2], _ =>
+    match bounds, hb with
+    | [b0, b1, b2], _ =>
+      cases b0 <;> cases b1 <;> cases b2 <;>
+        simp [isAxialOnly, indexBounds, upperBound] <;> omega
+
+example : (axialGrid [0, 1, 2] [0, 0, 0] [(0, 1), (0, 1), (0, 1)]).limits.length = 3 ∧
+    (axialGrid [0, 1, 2] [0, 0, 0] [(0, 1), (0, 1), (0, 1)]).bounds.length = 3 ∧
+    upperBound (axialGrid [0, 1, 2] [0, 0, 0] [(0, 1), (0, 1), (0, 1)]) 2 = some 3 := ⟨rfl, rfl, rfl⟩
+
+/-- **the contract of `addingIsValid`**: child grid axial-only AND parent grid NOT axial-only -/
+theorem adding_is_valid_iff (mine parent : G) :
+    addingIsValid mine parent = true ↔ (isAxialOnly mine = true ∧ isAxialOnly parent = false) := by
+  simp [addingIsValid]
+
+/-- **`getCompleteIndices` does what `addingIsValid` says, and nothing else**: for an index locator whose
+parent is an index locator, the result is own + parent when the addition is valid and the locator's own
+indices otherwise; with a parent at indices that are not all zero the two outcomes are different, so
+"the parent's indices were added" ⇔ `addingIsValid`. -/
+theorem complete_indices_follow_adding (g pg : G) (i j k pi pj pk : Int) :
+    (addingIsValid g pg = true →
+      completeIndices (.index (some g) i j k) (some (.index (some pg) pi pj pk)) =
+        [((i + pi : Int) : Rat), ((j + pj : Int) : Rat), ((k + pk : Int) : Rat)]) ∧
+    (addingIsValid g pg = false →
+      completeIndices (.index (some g) i j k) (some (.index (some pg) pi pj pk)) =
+        [(i : Rat), (j : Rat), (k : Rat)]) ∧
+    ((pi, pj, pk) ≠ (0, 0, 0) →
+      (completeIndices (.index (some g) i j k) (some (.index (some pg) pi pj pk)) =
+        [((i + pi : Int) : Rat), ((j + pj : Int) : Rat), ((k + pk : Int) : Rat)] ↔ addingIsValid g pg = true)) := by
+  have h := complete_indices_axial_only g pg i j k pi pj pk
+  have hv := adding_is_valid_iff g pg
+  refine ⟨fun ha => ?_, fun ha => ?_, fun hp => ⟨fun he => ?_, fun ha => ?_⟩⟩
+  · rw [h, if_pos (hv.mp ha)]
+  · rw [h, if_neg (fun hc => by rw [hv.mpr hc] at ha; exact Bool.noConfusion ha)]
+  · by_contra hn
+    have hf : ¬ (isAxialOnly g = true ∧ isAxialOnly pg = false) := fun hc => hn (hv.mpr hc)
+    rw [h, if_neg hf] at he
+    simp only [List.cons.injEq, and_true] at he
+    obtain ⟨h1, h2, h3⟩ := he
+    have e1 : i = i + pi := by exact_mod_cast h1
+    have e2 : j = j + pj := by exact_mod_cast h2
+    have e3 : k = k + pk := by exact_mod_cast h3
+    apply hp
+    have : pi = 0 := by omega
+    have : pj = 0 := by omega
+    have : pk = 0 := by omega
+    simp [*]
+  · rw [h, if_pos (hv.mp ha)]
+
+/-- **an axial mesh inside an axial mesh keeps its own indices** (e.g. an axial sub-mesh inside a block of an
+axially meshed assembly): `addingIsValid` is false and the parent's indices — whatever they are — are not added.
+Both kinds of axial-only grid (bounds-defined `AxialGrid`, step-defined column) in every combination. -/
+theorem axial_in_axial_keeps (g pg : G) (hg : isAxialOnly g = true) (hpg : isAxialOnly pg = true)
+    (i j k pi pj pk : Int) :
+    addingIsValid g pg = false ∧
+    completeIndices (.index (some g) i j k) (some (.index (some pg) pi pj pk)) = [(i : Rat), (j : Rat), (k : Rat)] := by
+  have hv : addingIsValid g pg = false := by simp [addingIsValid, hg, hpg]
+  exact ⟨hv, (complete_indices_follow_adding g pg i j k pi pj pk).2.1 hv⟩
+
+/-- a locator whose own grid is not axial-only (lattice, θ-R-Z, 3-D mesh, single-cell grid) keeps its own indices
+under every parent -/
+theorem nonaxial_child_keeps (g : G) (hg : isAxialOnly g = false) (p : Option Loc) (i j k : Int) :
+    completeIndices (.index (some g) i j k) p = [(i : Rat), (j : Rat), (k : Rat)] := by
+  cases p with
+  | none => rfl
+  | some p =>
+    simp only [completeIndices, addingIsValid]
+    cases p.grid with
+    | none => rfl
+    | some pg => simp [hg, Loc.indices]
+
+/-- **complete indices never look past the parent**: ancestors beyond `parentLocation` contribute nothing, at any
+depth (each index axis is added at most once) -/
+theorem complete_chain_depth (l p : Loc) (rest rest' : List Loc) :
+    completeIndicesChain (l :: p :: rest) = completeIndicesChain (l :: p :: rest') := rfl
+
+/-- **radial / axial / axial, three deep** (lattice ⊃ axial mesh ⊃ axial sub-mesh, owners anywhere): the
+innermost locator keeps its own indices, the middle one gets all three of the lattice cell's indices. -/
+theorem radial_axial_axial (bz bz' : List Rat) (off off') (h : 2 ≤ bz.length) (h' : 2 ≤ bz'.length)
+    (steps offL geom sym) (n m : Int) (hn : n ≠ 1 ∨ m ≤ 1) (k k' pi pj pk : Int) (top : List Loc) :
+    let lattice := latticeGrid steps offL geom sym n m
+    let mid := axialGrid bz off [(0, 1), (0, 1), (0, 1)]
+    let inner := axialGrid bz' off' [(0, 1), (0, 1), (0, 1)]
+    completeIndicesChain (.index (some inner) 0 0 k' :: .index (some mid) 0 0 k :: .index (some lattice) pi pj pk :: top)
+      = [0, 0, (k' : Rat)] ∧
+    completeIndicesChain (.index (some mid) 0 0 k :: .index (some lattice) pi pj pk :: top)
+      = [((0 + pi : Int) : Rat), ((0 + pj : Int) : Rat), ((k + pk : Int) : Rat)] := by
+  intro lattice mid inner
+  constructor
+  · have := (axial_in_axial_keeps inner mid (axial_isAxialOnly bz' off' h') (axial_isAxialOnly bz off h) 0 0 k' 0 0 k).2
+    simpa [completeIndicesChain] using this
+  · exact (axial_in_lattice_adds bz off h steps offL geom sym n m hn 0 0 k pi pj pk).2
+
+example : completeIndicesChain
+    [.index (some (axialGrid [0, 1, 2, 3] [0, 0, 0] [(0, 1), (0, 1), (0, 1)])) 0 0 2,
+     .index (some (axialGrid [0, 10, 20, 45] [0, 0, 0] [(0, 1), (0, 1), (0, 1)])) 0 0 1,
+     .index (some (latticeGrid (.mat [[1, 0, 0], [0, 1, 0], [0, 0, 0]]) [0, 0, 0] "" "" 3 1)) (-2) 1 0,
+     .coord none 5 6 7] = [0, 0, 2] := by
+  have := (radial_axial_axial [0, 10, 20, 45] [0, 1, 2, 3] [0, 0, 0] [0, 0, 0] (by decide) (by decide)
+    (.mat [[1, 0, 0], [0, 1, 0], [0, 0, 0]]) [0, 0, 0] "" "" 3 1 (by decide) 1 2 (-2) 1 0 [.coord none 5 6 7]).1
+  simpa using this
+example : isAxialOnly (stepAxialGrid (.mat [[0, 0, 0], [0, 0, 0], [0, 0, 5]]) [0, 0, 0] "" "" 4) = true ∧
+    isAxialOnly (stepAxialGrid (.mat [[0, 0, 0], [0, 0, 0], [0, 0, 5]]) [0, 0, 0] "" "" 1) = false := by
+  constructor <;> (rw [stepAxial_isAxialOnly]; decide)
+example : ((-2 : Int), (1 : Int), (2 : Int)) ≠ (0, 0, 0) := by decide
+
+/-- `getCompleteIndices` raises (model: `completeIndicesRaises`) only in the one configuration where a valid
+addition meets a free-coordinate parent; for index-locator parents it never does -/
+theorem complete_never_raises_on_index_parent (self : Loc) (g : Option G) (pi pj pk : Int) :
+    completeIndicesRaises self (some (.index g pi pj pk)) = false ∧ completeIndicesRaises self none = false := by
+  constructor
+  · cases self with
+    | index sg _ _ _ => cases sg <;> rfl
+    | coord _ _ _ _ => rfl
+  · cases self with
+    | index sg _ _ _ => cases sg <;> rfl
+    | coord _ _ _ _ => rfl
+
+/-! ### chains through θ-R-Z grids -/
+
+/-- on chains without θ-R-Z element `globalCoordsT` is `globalCoords` (all nesting theorems apply verbatim) -/
+theorem globalCoordsT_plain (chain : List Loc) : globalCoordsT (chain.map LocT.plain) = globalCoords chain := by
+  induction chain with
+  | nil => rfl
+  | cons l rest ih =>
+    cases rest with
+    | nil => rfl
+    | cons l2 rest2 =>
+      simp only [List.map_cons, globalCoordsT, globalCoords, LocT.localCoords] at ih ⊢
+      rw [ih]
+
+/-- **global coordinates are the sum of the local coordinates along the whole parent chain, at ANY depth and
+through every kind of grid** — θ-R-Z levels contribute their Cartesian image (r·cos θ, r·sin θ, z) -/
+theorem nested_coords_add_T (chain : List LocT) (hne : chain ≠ [])
+    (hall : ∀ l ∈ chain, ∃ x y z, l.localCoords = some [x, y, z]) :
+    ∃ x y z, globalCoordsT chain = some [x, y, z] ∧
+      x = (chain.map (fun l => ((l.localCoords.getD [])[0]?).getD 0)).sum ∧
+      y = (chain.map (fun l => ((l.localCoords.getD [])[1]?).getD 0)).sum ∧
+      z = (chain.map (fun l => ((l.localCoords.getD [])[2]?).getD 0)).sum := by
+  induction chain with
+  | nil => exact absurd rfl hne
+  | cons l rest ih =>
+    obtain ⟨x, y, z, hl⟩ := hall l (List.mem_cons_self)
+    cases rest with
+    | nil =>
+      refine ⟨x, y, z, ?_, ?_, ?_, ?_⟩ <;> simp [globalCoordsT, hl]
+    | cons l2 rest2 =>
+      obtain ⟨x', y', z', hg, hx, hy, hz⟩ := ih (by simp) (fun m hm => hall m (List.mem_cons_of_mem _ hm))
+      refine ⟨x + x', y + y', z + z', ?_, ?_, ?_, ?_⟩
+      · simp [globalCoordsT, hl, hg, vadd]
+      · rw [hx]; simp [hl]
+      · rw [hy]; simp [hl]
+      · rw [hz]; simp [hl]
+
+/-- the contribution of a θ-R-Z level: defined exactly when the mesh coordinates exist with 0 ≤ θ ≤ τ, and then
+(r·cos θ, r·sin θ, z) -/
+theorem trz_level_local (tau cs sn : Rat) (g : G) (i j k : Int) (v : List Rat) :
+    (LocT.trz tau cs sn g i j k).localCoords = some v ↔
+      ∃ θ r z, getCoordinates g [i, j, k] = some [θ, r, z] ∧ 0 ≤ θ ∧ θ ≤ tau ∧ v = [r * cs, r * sn, z] := by
+  have := trz_coordinates_spec tau cs sn g [i, j, k] v false
+  simpa [LocT.localCoords] using this
+
+example : globalCoordsT [.trz 7 (3/5) (4/5) (boundsGrid [0, 1, 2, 3] [0, 2, 5] [0, 10, 20, 45] [0, 0, 0] [] "" "") 1 1 2,
+    .plain (.coord none 100 200 300)] = some [100 + 7/2 * (3/5), 200 + 7/2 * (4/5), 300 + 65/2] := by
+  decide +kernel
+
+/-! ### location labels: `locatorLabelToIndices ∘ getLabel` -/
+
+private def leVal : List Nat → Nat
+  | [] => 0
+  | d :: ds => d + 10 * leVal ds
+
+private theorem leVal_natDigitsLE (f n : Nat) (h : n < f) : leVal (natDigitsLE f n) = n := by
+  induction f generalizing n with
+  | zero => omega
+  | succ f ih =>
+    unfold natDigitsLE
+    split
+    · simp [leVal]
+    · have : n / 10 < f := by omega
+      simp only [leVal, ih _ this]; omega
+
+private theorem parseDigits_append (a : List Nat) (d : Nat) :
+    parseDigits (a ++ [d]) = parseDigits a * 10 + d := by
+  simp [parseDigits, List.foldl_append]
+
+private theorem parseDigits_reverse (l : List Nat) : parseDigits l.reverse = leVal l := by
+  induction l with
+  | nil => rfl
+  | cons d ds ih => rw [List.reverse_cons, parseDigits_append, ih]; simp only [leVal]; omega
+
+private theorem parseDigits_render (n : Nat) : parseDigits (render n) = n := by
+  unfold render; rw [parseDigits_reverse]; exact leVal_natDigitsLE _ _ (by omega)
+
+private theorem parseDigits_zeros (k : Nat) (ds : List Nat) :
+    parseDigits (List.replicate k 0 ++ ds) = parseDigits ds := by
+  induction k with
+  | zero => rfl
+  | succ k ih =>
+    rw [List.replicate_succ, List.cons_append]
+    unfold parseDigits at ih ⊢
+    simpa using ih
+
+private theorem render_ne_nil (n : Nat) : render n ≠ [] := by
+  unfold render natDigitsLE
+  split <;> simp
+
+private theorem pad0_eq (w : Nat) (ds : List Nat) :
+    pad0 w ds = (List.replicate (w - ds.length) 0 ++ ds).map Sym.dig := by
+  simp [pad0, List.map_append, List.map_replicate]
+
+private theorem symDigits_map (l : List Nat) : symDigits (l.map Sym.dig) = some l := by
+  induction l with
+  | nil => rfl
+  | cons d ds ih => simp [symDigits, ih]
+
+/-- a run of digits (no dash) -/
+private def noDash (l : List Sym) : Prop := ∀ s ∈ l, s ≠ Sym.dash
+
+private theorem noDash_pad0 (w : Nat) (ds : List Nat) : noDash (pad0 w ds) := by
+  intro s hs
+  rw [pad0_eq] at hs
+  obtain ⟨d, _, rfl⟩ := List.mem_map.mp hs
+  exact fun h => Sym.noConfusion h
+
+private theorem pyInt_pad0 (w n : Nat) : pyInt (pad0 w (render n)) = some (n : Int) := by
+  have hne : pad0 w (render n) ≠ [] := by
+    rw [pad0_eq]
+    intro h
+    have := List.map_eq_nil_iff.mp h
+    have h2 := List.append_eq_nil_iff.mp this
+    exact render_ne_nil n h2.2
+  unfold pyInt
+  split
+  · rename_i h; exact absurd h hne
+  · rw [pad0_eq, symDigits_map, Option.map_some, parseDigits_zeros, parseDigits_render]
+
+private theorem splitDash_noDash (a : List Sym) (h : noDash a) : splitDash a = [a] := by
+  induction a with
+  | nil => rfl
+  | cons s r ih =>
+    have hs : s ≠ Sym.dash := h s (List.mem_cons_self)
+    have hr : noDash r := fun t ht => h t (List.mem_cons_of_mem _ ht)
+    cases s with
+    | dash => exact absurd rfl hs
+    | dig d => simp [splitDash, ih hr]
+    | other => simp [splitDash, ih hr]
+
+private theorem splitDash_append (a b : List Sym) (h : noDash a) :
+    splitDash (a ++ Sym.dash :: b) = a :: splitDash b := by
+  induction a with
+  | nil => rfl
+  | cons s r ih =>
+    have hs : s ≠ Sym.dash := h s (List.mem_cons_self)
+    have hr : noDash r := fun t ht => h t (List.mem_cons_of_mem _ ht)
+    cases s with
+    | dash => exact absurd rfl hs
+    | dig d => simp [splitDash, ih hr]
+    | other => simp [splitDash, ih hr]
+
+private theorem fmt03_nonneg (n : Nat) : fmt03 (n : Int) = pad0 3 (render n) := by
+  simp [fmt03]
+
+/-- **labels decode to the indices they were made from**, for all non-negative indices of any size (ring / position
+≥ 100 or ≥ 1000 widen the field, they do not break it), with and without the axial index -/
+theorem label_roundtrip (a b c : Nat) :
+    (getLabel [(a : Int), b, c]).bind labelToIndices = some [some (a : Int), some (b : Int), some (c : Int)] ∧
+    (getLabel [(a : Int), b]).bind labelToIndices = some [some (a : Int), some (b : Int), none] := by
+  have ha := noDash_pad0 3 (render a)
+  have hb := noDash_pad0 3 (render b)
+  have hc := noDash_pad0 3 (render c)
+  constructor
+  · simp only [getLabel, Option.bind_some, labelToIndices, fmt03_nonneg, List.append_assoc, List.cons_append]
+    rw [splitDash_append _ _ ha, splitDash_append _ _ hb, splitDash_noDash _ hc]
+    simp [List.mapM_cons, pyInt_pad0]
+  · simp only [getLabel, Option.bind_some, labelToIndices, fmt03_nonneg]
+    rw [splitDash_append _ _ ha, splitDash_noDash _ hb]
+    simp [List.mapM_cons, pyInt_pad0]
+
+/-- hence labels of non-negative index triples are injective -/
+theorem label_injective (a b c a' b' c' : Nat) (h : getLabel [(a : Int), b, c] = getLabel [(a' : Int), b', c']) :
+    a = a' ∧ b = b' ∧ c = c' := by
+  have h1 := (label_roundtrip a b c).1
+  have h2 := (label_roundtrip a' b' c').1
+  rw [h] at h1
+  rw [h1] at h2
+  simp only [Option.some.injEq, List.cons.injEq, and_true] at h2
+  omega
+
+/-- **a NEGATIVE first index makes the label undecodable** (the model reproduces the defect of the real pair:
+`f"{-1:03d}"` is "-01", and `"-01-002".split("-")` starts with an empty piece that `int` refuses) — Cartesian
+cells left of / below the centre, hex cells never (ring, pos ≥ 1) -/
+theorem label_negative_first_undecodable (i : Int) (h : i < 0) (rest : List Int) (l : List Sym)
+    (hl : getLabel (i :: rest) = some l) : labelToIndices l = none := by
+  have hstart : ∀ tail, fmt03 i ++ tail = Sym.dash :: (pad0 2 (render i.natAbs) ++ tail) := by
+    intro tail; simp [fmt03, h]
+  have key : ∀ tail, labelToIndices (fmt03 i ++ tail) = none := by
+    intro tail
+    rw [hstart]
+    simp [labelToIndices, splitDash, List.mapM_cons, pyInt]
+  match rest, hl with
+  | [j], hl => simp only [getLabel, Option.some.injEq] at hl; rw [← hl]; exact key _
+  | [j, k], hl => simp only [getLabel, Option.some.injEq] at hl; rw [← hl, List.append_assoc]; exact key _
+  | j :: k :: m :: r, hl => simp only [getLabel, Option.some.injEq] at hl; rw [← hl]; exact key _
+
+/-- `HexGrid.getLabel(indices)`: `Grid.getLabel` of (ring, pos) resp. (ring, pos, k) with
+(ring, pos) = `getRingPos(indices)` = `Hex.toRingPos i j` -/
+def hexLabel (i j : Int) (k : Option Int) : Option (List Sym) :=
+  match k with
+  | none => getLabel [(Hex.toRingPos i j).1, (Hex.toRingPos i j).2]
+  | some k => getLabel [(Hex.toRingPos i j).1, (Hex.toRingPos i j).2, k]
+
+/-- **hex labels, for EVERY cell of ℤ² and every axial index k ≥ 0: label → (ring, pos, k) → cell is the
+identity** — decoding the label gives the cell's ring and position (whatever their size), and
+`getIndicesFromRingAndPos` of those gives the cell back -/
+theorem hex_label_roundtrip (i j : Int) (k : Nat) :
+    ∃ r p : Nat, (r : Int) = (Hex.toRingPos i j).1 ∧ (p : Int) = (Hex.toRingPos i j).2 ∧
+      (hexLabel i j (some k)).bind labelToIndices = some [some (r : Int), some (p : Int), some (k : Int)] ∧
+      (hexLabel i j none).bind labelToIndices = some [some (r : Int), some (p : Int), none] ∧
+      Hex.fromRingPos r p = some (i, j) := by
+  have hp := (Hex.pos_range i j).1
+  have hr : 1 ≤ (Hex.toRingPos i j).1 := by rw [Hex.ring_eq_hexdist]; omega
+  refine ⟨(Hex.toRingPos i j).1.toNat, (Hex.toRingPos i j).2.toNat, by omega, by omega, ?_, ?_, ?_⟩
+  · have e1 : (Hex.toRingPos i j).1 = (((Hex.toRingPos i j).1.toNat : Nat) : Int) := by omega
+    have e2 : (Hex.toRingPos i j).2 = (((Hex.toRingPos i j).2.toNat : Nat) : Int) := by omega
+    simp only [hexLabel]
+    rw [e1, e2]
+    simpa using (label_roundtrip (Hex.toRingPos i j).1.toNat (Hex.toRingPos i j).2.toNat k).1
+  · have e1 : (Hex.toRingPos i j).1 = (((Hex.toRingPos i j).1.toNat : Nat) : Int) := by omega
+    have e2 : (Hex.toRingPos i j).2 = (((Hex.toRingPos i j).2.toNat : Nat) : Int) := by omega
+    simp only [hexLabel]
+    rw [e1, e2]
+    simpa using (label_roundtrip (Hex.toRingPos i j).1.toNat (Hex.toRingPos i j).2.toNat 0).2
+  · have e1 : (((Hex.toRingPos i j).1.toNat : Nat) : Int) = (Hex.toRingPos i j).1 := by omega
+    have e2 : (((Hex.toRingPos i j).2.toNat : Nat) : Int) = (Hex.toRingPos i j).2 := by omega
+    rw [e1, e2]; exact Hex.ringpos_left_inv i j
+
+example : (getLabel [100, 1000, 7]).bind labelToIndices = some [some 100, some 1000, some 7] := by
+  have := (label_roundtrip 100 1000 7).1; simpa using this
+example : getLabel [-1, 2, 0] = some [.dash, .dig 0, .dig 1, .dash, .dig 0, .dig 0, .dig 2, .dash, .dig 0, .dig 0, .dig 0] ∧
+    labelToIndices [.dash, .dig 0, .dig 1, .dash, .dig 0, .dig 0, .dig 2, .dash, .dig 0, .dig 0, .dig 0] = none := by
+  decide
 
 /-! ### non-vacuity -/
 example : cartRingPos true 2 (-1) = (3, 14) ∧ cartFromRingPos true 3 14 = (2, -1) := by decide
